@@ -111,7 +111,7 @@ class Model(SOCModel):
                 obj_constr = (self.vars[0] - self.sign * self.obj >= 0)
                 if isinstance(obj_constr, CvxConstr):
                     constr = obj_constr
-                    if constr.xtype in 'XLPF':
+                    if constr.xtype in 'XLPFN':
                         more_others.append(constr)
                     elif constr.xtype in 'OD':
                         more_det.append(constr)
